@@ -185,7 +185,7 @@ func (e *Exec) libModel(st *State, callee *ssa.Function, cc *ssa.CallCommon, arg
 		used()
 		set(e.newError(st, resT))
 		return true, true, nil
-	case "fmt.Sprintf", "fmt.Sprint", "fmt.Sprintln", "strconv.Itoa", "strconv.FormatInt", "strconv.FormatUint", "strconv.Quote", "(time.Time).String", "(net.IP).String", "(time.Duration).String", "strings.Join", "strings.ToLower", "strings.ToUpper", "strings.TrimSpace", "strings.Repeat", "strings.Replace", "strings.ReplaceAll", "strings.Title", "strings.Trim", "strings.TrimLeft", "strings.TrimRight", "encoding/hex.EncodeToString", "(*strings.Builder).String", "(*bytes.Buffer).String":
+	case "fmt.Sprintf", "fmt.Sprint", "fmt.Sprintln", "strconv.Itoa", "strconv.FormatInt", "strconv.FormatUint", "strconv.Quote", "(time.Time).String", "(time.Duration).String", "strings.Join", "strings.ToLower", "strings.ToUpper", "strings.TrimSpace", "strings.Repeat", "strings.Replace", "strings.ReplaceAll", "strings.Title", "strings.Trim", "strings.TrimLeft", "strings.TrimRight", "encoding/hex.EncodeToString", "(*strings.Builder).String", "(*bytes.Buffer).String":
 		used()
 		set(e.freshVal(st, "str", resT))
 		return true, true, nil
@@ -285,6 +285,20 @@ func (e *Exec) libModel(st *State, callee *ssa.Function, cc *ssa.CallCommon, arg
 		nv := Val{T: old.T, S: e.sc.define("casnv", e.sc.sortOf(old.T), ite(ok, args[2].S, old.S))}
 		e.store(st, args[0], nv)
 		set(Val{T: tBool, S: ok})
+		return true, true, nil
+	case "(net.IP).String":
+		if e.mode != ModeBV {
+			used()
+			set(e.freshVal(st, "str", resT))
+			return true, true, nil
+		}
+		// deterministic: the textual form is a function of the address bytes
+		used()
+		e.eng.spec.need(e.sc, "ip_str")
+		arr, off, ln := e.sliceArr(st, args[0], tByte)
+		v := Val{T: resT, S: e.sc.define("ipstr", "Str", fmt.Sprintf("(ip_str %s %s %s)", arr, off, ln))}
+		e.assumeWF(st, v)
+		set(v)
 		return true, true, nil
 	case "(net.IP).IsUnspecified":
 		if e.mode != ModeBV {
